@@ -22,7 +22,6 @@ variable {K : Codec}
 @[simp] theorem addRouted_toChild (s : St K) (e : CEv) : (addRouted s e).toChild = s.toChild := rfl
 @[simp] theorem addRouted_routed (s : St K) (e : CEv) : (addRouted s e).routed = s.routed ++ [e] := rfl
 @[simp] theorem addRouted_up (s : St K) (e : CEv) : (addRouted s e).up = s.up := rfl
-@[simp] theorem addRouted_inbound (s : St K) (e : CEv) : (addRouted s e).inbound = s.inbound := rfl
 @[simp] theorem addRouted_accepted (s : St K) (e : CEv) : (addRouted s e).accepted = s.accepted := rfl
 @[simp] theorem addRouted_rxError (s : St K) (e : CEv) : (addRouted s e).rxError = s.rxError := rfl
 @[simp] theorem enqueue_side (s : St K) (e : CEv) : (enqueue s e).side = s.side := rfl
@@ -37,7 +36,6 @@ variable {K : Codec}
 @[simp] theorem enqueue_toChild (s : St K) (e : CEv) : (enqueue s e).toChild = s.toChild := rfl
 @[simp] theorem enqueue_routed (s : St K) (e : CEv) : (enqueue s e).routed = s.routed := rfl
 @[simp] theorem enqueue_up (s : St K) (e : CEv) : (enqueue s e).up = s.up := rfl
-@[simp] theorem enqueue_inbound (s : St K) (e : CEv) : (enqueue s e).inbound = s.inbound := rfl
 @[simp] theorem enqueue_accepted (s : St K) (e : CEv) : (enqueue s e).accepted = s.accepted := rfl
 @[simp] theorem enqueue_rxError (s : St K) (e : CEv) : (enqueue s e).rxError = s.rxError := rfl
 @[simp] theorem setSt_side (s : St K) (v : TState) : (setSt s v).side = s.side := rfl
@@ -52,7 +50,6 @@ variable {K : Codec}
 @[simp] theorem setSt_toChild (s : St K) (v : TState) : (setSt s v).toChild = s.toChild := rfl
 @[simp] theorem setSt_routed (s : St K) (v : TState) : (setSt s v).routed = s.routed := rfl
 @[simp] theorem setSt_up (s : St K) (v : TState) : (setSt s v).up = s.up := rfl
-@[simp] theorem setSt_inbound (s : St K) (v : TState) : (setSt s v).inbound = s.inbound := rfl
 @[simp] theorem setSt_accepted (s : St K) (v : TState) : (setSt s v).accepted = s.accepted := rfl
 @[simp] theorem setSt_rxError (s : St K) (v : TState) : (setSt s v).rxError = s.rxError := rfl
 @[simp] theorem emit_side (s : St K) (u : List Up) : (emit s u).side = s.side := rfl
@@ -67,7 +64,6 @@ variable {K : Codec}
 @[simp] theorem emit_toChild (s : St K) (u : List Up) : (emit s u).toChild = s.toChild := rfl
 @[simp] theorem emit_routed (s : St K) (u : List Up) : (emit s u).routed = s.routed := rfl
 @[simp] theorem emit_up (s : St K) (u : List Up) : (emit s u).up = s.up ++ u := rfl
-@[simp] theorem emit_inbound (s : St K) (u : List Up) : (emit s u).inbound = s.inbound := rfl
 @[simp] theorem emit_accepted (s : St K) (u : List Up) : (emit s u).accepted = s.accepted := rfl
 @[simp] theorem emit_rxError (s : St K) (u : List Up) : (emit s u).rxError = s.rxError := rfl
 
@@ -83,7 +79,6 @@ variable {K : Codec}
 @[simp] theorem clearReply_toChild (s : St K) : (clearReply s).toChild = s.toChild := rfl
 @[simp] theorem clearReply_routed (s : St K) : (clearReply s).routed = s.routed := rfl
 @[simp] theorem clearReply_up (s : St K) : (clearReply s).up = s.up := rfl
-@[simp] theorem clearReply_inbound (s : St K) : (clearReply s).inbound = s.inbound := rfl
 @[simp] theorem clearReply_accepted (s : St K) : (clearReply s).accepted = s.accepted := rfl
 @[simp] theorem clearReply_rxError (s : St K) : (clearReply s).rxError = s.rxError := rfl
 @[simp] theorem clearQueue_side (s : St K) : (clearQueue s).side = s.side := rfl
@@ -98,7 +93,6 @@ variable {K : Codec}
 @[simp] theorem clearQueue_toChild (s : St K) : (clearQueue s).toChild = s.toChild := rfl
 @[simp] theorem clearQueue_routed (s : St K) : (clearQueue s).routed = s.routed := rfl
 @[simp] theorem clearQueue_up (s : St K) : (clearQueue s).up = s.up := rfl
-@[simp] theorem clearQueue_inbound (s : St K) : (clearQueue s).inbound = s.inbound := rfl
 @[simp] theorem clearQueue_accepted (s : St K) : (clearQueue s).accepted = s.accepted := rfl
 @[simp] theorem clearQueue_rxError (s : St K) : (clearQueue s).rxError = s.rxError := rfl
 
@@ -215,8 +209,8 @@ theorem plainOf_append (a b : List CEv) : plainOf (a ++ b) = plainOf a ++ plainO
   | cons x xs ih => cases x <;> simp [plainOf, ih]
 
 /-- the part of the state `interact` / `_handle_command` never touch -/
-def frame (s : St K) : List CEv × List CEv × List CEv × Bool × Bytes × Bool × Side :=
-  (s.toChild, s.routed, s.queue, s.errored, s.inbound, s.rxError, s.side)
+def frame (s : St K) : List CEv × List CEv × List CEv × Bool × Bool × Side :=
+  (s.toChild, s.routed, s.queue, s.errored, s.rxError, s.side)
 
 theorem frame_interact (s : St K) : frame (interact s) = frame s := by
   unfold interact; split <;> simp [frame, emit]
